@@ -54,9 +54,13 @@ type sess struct {
 	lastUse  time.Time
 	dropped  bool // invalidated, or a resumption of it failed
 	restartN int  // server generation it was created in
+	noExpiry bool // a claim session registered without a lifetime: time alone never kills it
 }
 
 func (x *sess) definitelyDead(now time.Time) bool {
+	if x.noExpiry {
+		return false
+	}
 	a, b := x.created.Add(duration*time.Second), x.lastUse.Add(lease*time.Second)
 	if b.After(a) {
 		a = b
@@ -65,6 +69,9 @@ func (x *sess) definitelyDead(now time.Time) bool {
 }
 
 func (x *sess) definitelyAlive(now time.Time) bool {
+	if x.noExpiry {
+		return true
+	}
 	a, b := x.created.Add(duration*time.Second), x.lastUse.Add(lease*time.Second)
 	if b.Before(a) {
 		a = b
@@ -198,12 +205,13 @@ func run(s *kernel.Sim, c *scen.Case) {
 		return true
 	}
 	var lastFull *sess
+	claimSeq := 0
 	ok := true
 	s.Go("driver", func() {
 		defer func() { stop = true }()
 		nsteps := 5 + t.Choose("nsteps", 8)
 		for step := 0; step < nsteps && ok; step++ {
-			op := t.Choose("op", 10)
+			op := t.Choose("op", 11)
 			switch {
 			case op <= 5: // handshake
 				tag := kernel.Pick(t, "tag", tags...)
@@ -301,6 +309,9 @@ func run(s *kernel.Sim, c *scen.Case) {
 						ok = false
 					default:
 						x.lastUse = now
+						if x.noExpiry {
+							s.Probe("resumed-claim-session")
+						}
 					}
 				} else {
 					s.Probe("full-handshake")
@@ -326,6 +337,48 @@ func run(s *kernel.Sim, c *scen.Case) {
 					}
 					st.Close()
 				}
+			case op == 10:
+				// a session enters the client's cache without a handshake: a claim the client mints for a
+				// peer (the server side imports the claim id), or a claim of the server's that the client
+				// imports - filed under a tag, an address form and a set of commands like any other
+				tag := kernel.Pick(t, "claim.tag", tags...)
+				addr := kernel.Pick(t, "claim.addr", addrs...)
+				form := kernel.Pick(t, "claim.form", "<"+addr+">", addr)
+				valid := map[int]bool{}
+				var vc []int
+				for i, n := 0, 1+t.Choose("claim.ncmd", 2); i < n; i++ {
+					cm := kernel.Pick(t, "claim.cmd", cmds...)
+					if !valid[cm] {
+						valid[cm] = true
+						vc = append(vc, cm)
+					}
+				}
+				claimSeq++
+				var sid string
+				var err error
+				how := t.Choose("claim.how", 2)
+				if how == 0 {
+					var m *security.MintedClaim
+					if m, err = security.MintClaimSession(cache, security.MintClaimOptions{Sinful: "<10.0.0.1:40000>", Birthdate: 1700000000, SequenceNum: claimSeq, PeerAddr: form, Tag: tag, ExtraValidCommands: vc}); err == nil {
+						sid = m.SessionID()
+						_, err = security.ImportClaimSession(security.GetSessionCache(), m.ClaimID(), security.ClaimSessionOptions{})
+					}
+				} else {
+					var m *security.MintedClaim
+					if m, err = security.MintClaimSession(security.GetSessionCache(), security.MintClaimOptions{Sinful: "<" + addr + ">", Birthdate: 1700000000, SequenceNum: claimSeq}); err == nil {
+						sid, err = security.ImportClaimSession(cache, m.ClaimID(), security.ClaimSessionOptions{PeerAddr: form, Tag: tag, ExtraValidCommands: vc})
+					}
+				}
+				s.Note("step %d: claim session how=%d tag=%q filed under %s for %v -> sid=%s err=%v", step, how, tag, form, vc, sid, err)
+				if err != nil {
+					s.Violate("claim-registration-failed", fmt.Sprintf("how=%d", how), fmt.Sprintf("minting and importing a claim session failed: %v", err))
+					ok = false
+					continue
+				}
+				s.Fault("claim-session-registered")
+				now := time.Now()
+				lastFull = &sess{id: sid, tag: tag, addrKey: form, valid: valid, created: now, lastUse: now, restartN: serverGen, noExpiry: true}
+				model[sid] = lastFull
 			case op == 6: // all servers restart and forget their sessions
 				security.ClearSessionCache()
 				serverGen++
